@@ -266,7 +266,8 @@ def step (st : St) (line : String) : St × String :=
       let model := s!"api={mA} vpl={mV}"
       let judge : Option String :=
         if st.prop == "C02" then
-          (judgeC02 p seenA e (implList ia) fmtMatch "api").orElse fun _ =>
+          -- the property speaks about streams on which backpressure never refuses a run
+          (if engA.dropped then none else judgeC02 p seenA e (implList ia) fmtMatch "api").orElse fun _ =>
             if iv == "NA" then none
             else if r then judgeC02 p seenV e (implList iv) (fun m => fmtCaps m.caps) "vpl"
             else if iv == "-" then none else some "JUDGE C02 vpl output on an event the stream does not consume"
